@@ -6,6 +6,7 @@ V: the opcode effect table is validated against (ip, sp) pairs recorded from the
 (BytecodeTrace); scaled loops: same outcome for 10 and 100 x 1024 iterations.
 """
 import json
+import os
 import re
 import threading
 
@@ -150,9 +151,28 @@ def run(cx):
 
     add_family(skel_cases, sk_out, "sk")
     cx.cover["scaled_shape_code_objects"] = add_family(shape_cases, sh_path, "shp")
+    # programs that import file modules (whose last statement is an expression, a function definition, a
+    # declaration): an import is stack-neutral wherever it stands - at top level, in a loop body, in a function, in a
+    # block that is an operand
+    moddir = cx.path("mods")
+    os.makedirs(moddir, exist_ok=True)
+    for name, text in (("ma", "v := 7\nfunc f(x) {\nreturn x + v\n}\n"), ("mb", "w := 3\nw * 2\n"), ("mc", "func g() {\nreturn 1\n}\nu := g()\n")):
+        with open(os.path.join(moddir, name + ".risor"), "w") as fh:
+            fh.write(text)
+    imp_srcs = [
+        "import ma\nma.f(1)", "import mb\nmb.w", "import mc\nmc.u", "from ma import f\nf(2)", "import ma as q\nq.v",
+        "for i := range 3 {\nimport ma\nma.f(i)\n}\n1", "for i := range 2 {\nimport mb\nimport mc\nmb.w + mc.u\n}\n1",
+        "for x in [1, 2] {\nfrom ma import f\nf(x)\n}\n1",
+        "func h() {\nimport mb\nreturn mb.w\n}\nh() + h()", "y := [1, if true {\nimport mb\nmb.w\n}, 3]\ny",
+        "z := 1 + func() {\nimport ma\nimport mc\nreturn ma.v + mc.u\n}()\nz",
+        "switch 1 {\ncase 1:\nimport ma\nma.v\n}", "import ma\nimport mb\nimport mc\nimport ma\n[ma.v, mb.w, mc.u]",
+    ]
+    imp_cases = [{"id": 4000000 + k_, "src": t} for k_, t in enumerate(imp_srcs)]
+    for c in imp_cases:
+        by_id[c["id"]] = c
     sub_path = cx.path("sub.ndjson")
-    vlib.write_ndjson(sub_path, sub)
-    cx.run([bc, "steps", "-in", sub_path, "-out", steps_path, "-max", "1500"])
+    vlib.write_ndjson(sub_path, sub + imp_cases)
+    cx.run([bc, "steps", "-in", sub_path, "-out", steps_path, "-max", "1500", "-moddir", moddir])
     srows = []
     opcodes_seen = set()
     nsteps = 0
